@@ -4,7 +4,7 @@ import json
 import os
 import time
 
-from common import (Rng, Report, build, run_jobs, run_one, find_site, log, write_evidence, race_signature,
+from common import (hash_str, Rng, Report, build, run_jobs, run_one, find_site, log, write_evidence, race_signature,
                     Inconclusive, REAL, STUB, sites, make_tape, trim_tape)
 import sysa
 import tgen
@@ -425,6 +425,7 @@ VARIANTS_C06 = [
     ("taint-ondemand", "taint", {"summarize-on-demand": True}),
     ("backtrace", "backtrace", {}),
     ("taint-escape", "taint", {"use-escape-analysis": True}),
+    ("taint-maxdepth", "taint", {"unsafe-max-depth": "vary"}),  # 3..9, drawn per program
     ("taint-fieldsens", "taint", {"field-sensitive": True}),
     ("backtrace-ondemand", "backtrace", {"summarize-on-demand": True}),
 ]
@@ -490,6 +491,8 @@ def explore(binary, bdir, tier, seed, progs, variants, nseeds, st, rep, prop, on
         for vname, kind, opts in variants:
             o = {"log-level": 1}
             o.update(opts)
+            if o.get("unsafe-max-depth") == "vary":
+                o["unsafe-max-depth"] = 3 + hash_str(prog["name"]) % 7
             if extra_opts:
                 o.update(extra_opts)
             rp = sysa.base_params()
@@ -546,6 +549,7 @@ def check_c06(tier, seed):
     nprog, nseeds = (30, 5) if tier == "quick" else (400, 12)
     progs = [sysa.gen_program(seed + 6, i) for i in range(nprog)]
     observations = collections.Counter()
+    cur = {"b": binary}  # the binary the current exploration uses (replays must use the same instrumentation)
 
     def on_result(j, r, ref):
         if ref.get("panic"):
@@ -574,7 +578,7 @@ def check_c06(tier, seed):
                 return False
             refjob = {k: v for k, v in (cand or jj).items() if not k.startswith("_")}
             refjob["params"] = dict(sysa.base_params(), max_steps=refjob["params"].get("max_steps", sysa.MAX_STEPS))
-            r0 = run_one(binary, refjob, timeout=600)
+            r0 = run_one(cur["b"], refjob, timeout=600)
             if r0 is None or sysa.classify_hard(r0) or r0.get("died") or r0.get("panic") or (r0.get("sim") or {}).get("aborted"):
                 return False
             if s.startswith("crash") or s.startswith("deadlock"):
@@ -583,12 +587,21 @@ def check_c06(tier, seed):
                 return False
             d = verdict_diff(sysa.result_key(r0), sysa.result_key(rr))
             return d is not None and c06_signature(jj["_variant"], d, r0, rr) == s
-        report_violation(rep, binary, "C06", j, sig, pred, "run-%d" % j["id"])
+        report_violation(rep, cur["b"], "C06", j, sig, pred, "run-%d" % j["id"])
 
-    variants = VARIANTS_C06 if tier == "thorough" else VARIANTS_C06[:4]
+    variants = VARIANTS_C06 if tier == "thorough" else VARIANTS_C06[:5]
     jobs, res, dropped = explore(binary, bdir, tier, seed, progs, variants, nseeds, st, rep, "C06", on_result)
     corpus_runs = 0
+    ptr_runs = 0
     if tier == "thorough":
+        # the pointer analysis' own map iterations behind the seam as well (a second instrumented build)
+        bdir2 = build(skip_pkgs="internal/zzverif", tag="ptr")
+        n0 = st.runs
+        cur["b"] = os.path.join(bdir2, "simharness-norace")
+        explore(os.path.join(bdir2, "simharness-norace"), bdir2, tier, seed + 2, progs[:120], VARIANTS_C06[:3], 6, st, rep,
+                "C06", on_result)
+        ptr_runs = st.runs - n0
+        cur["b"] = binary
         cprogs = [sysa.corpus_program(n) for n, _ in sysa.CORPUS]
         n0 = st.runs
         explore(binary, bdir, tier, seed + 1, cprogs, [VARIANTS_C06[0], VARIANTS_C06[1]], 3, st, rep, "C06", on_result,
@@ -596,7 +609,7 @@ def check_c06(tier, seed):
         corpus_runs = st.runs - n0
     nonempty = sum(1 for j, r in zip(jobs, res) if j.get("_ref") and r and (r.get("flows") or r.get("traces")))
     cov = st.coverage(RULE_A, {"programs": nprog, "variants": [v[0] for v in variants], "seeds_per_variant": nseeds,
-                               "reference_runs_with_nonempty_verdict": nonempty, "corpus_runs": corpus_runs,
+                               "reference_runs_with_nonempty_verdict": nonempty, "corpus_runs": corpus_runs, "runs_with_internal_pointer_map_orders_permuted": ptr_runs,
                                "dropped": dict(dropped), "observations": dict(observations),
                                "runs_per_hour": int(st.runs / max(1e-9, time.time() - t0) * 3600), "seeds": [seed]})
     write_evidence("C06", tier, seed, cov, time.time() - t0, len(rep.violations),
@@ -633,7 +646,8 @@ def check_c17(tier, seed):
     def on_result(j, r, ref):
         if not r.get("died") and not (r.get("sim") or {}).get("aborted"):
             look(j, r)
-    jobs, res, dropped = explore(binary, bdir, tier, seed, progs, VARIANTS_C06[:4] if tier == "quick" else VARIANTS_C06,
+    jobs, res, dropped = explore(binary, bdir, tier, seed, progs,
+                                 [VARIANTS_C06[i] for i in (0, 1, 2, 5)] if tier == "quick" else VARIANTS_C06,
                                  nseeds, st, rep, "C17", on_result)
     for j, r in zip(jobs, res):
         if j.get("_ref") and r and not sysa.classify_hard(r) and not r.get("died"):
